@@ -3,6 +3,7 @@ real Go AST of every accepted corpus / generated program."""
 import json, os, re, subprocess
 import vlib
 from props import c01, dce
+from props import gocomp
 
 def classify(detail):
     """type classes in an error detail, so that a finding is keyed by its shape, not by names"""
@@ -28,7 +29,7 @@ def _replay_is_dce(path):
 
 def run(ctx):
     ctx.extract()
-    mods = [m for m in ["GomlVerif.Props.C02", dce.PROP_MODULE] if os.path.exists(os.path.join(vlib.LEAN, m.replace(".", "/") + ".lean"))]
+    mods = [m for m in ["GomlVerif.Props.C02", dce.PROP_MODULE, gocomp.PROP_MODULE] if os.path.exists(os.path.join(vlib.LEAN, m.replace(".", "/") + ".lean"))]
     ctx.build_lean(mods)
     if not ctx.build_harness():
         return ctx.finish("translation_validation", {"programs": 0, "disagreements_checked": 0, "samples": []}, [], "lake build")
@@ -97,6 +98,8 @@ def run(ctx):
         "printed_go_text_parsed_back": n_pprint, "accepted_by_gocheck": n_ok, "error_codes": codes, "generator_features": feats,
         "dce": dce_cov,
     }
+    # ---- the Go back end (go/compile.rs): model = implementation, go_file does not panic
+    gocomp.add_to(ctx, "C02", cov)
     ctx.assumptions += [
         "Go.Check (lean/GomlVerif/Model/GoCheck.lean) is our reading of the Go rules for the emitted subset; it accepts the corpus programs real Go accepted and rejects 058 as real Go did",
         "Go.Check judges the goast; the pretty-printed text (go_pprint.rs) is tied to that AST by parsing it back with harness/src/goparse.rs (our reading of Go's lexical grammar: automatic semicolon insertion, operator precedence, composite-literal restriction)",
